@@ -1128,7 +1128,7 @@ impl Connection {
                 // since the packet could have triggered a migration. Make sure
                 // the data received is accounted for the most recent path by accessing
                 // `path` after `handle_decode`.
-                self.path.total_recvd = self.path.total_recvd.saturating_add(data_len as u64);
+                self.credit_received(remote, data_len);
 
                 if let Some(data) = remaining {
                     self.stats.udp_rx.bytes += data.len() as u64;
@@ -2292,6 +2292,21 @@ impl Connection {
         self.set_loss_detection_timer(now)
     }
 
+    /// Account for `len` bytes received from `remote` on the path they arrived on
+    ///
+    /// Only data from a path's own address counts towards its anti-amplification budget: while an
+    /// unvalidated (possibly spoofed) path is current, datagrams still arriving from the previous
+    /// address must not raise what may be sent to the new one.
+    fn credit_received(&mut self, remote: SocketAddr, len: usize) {
+        if remote == self.path.remote {
+            self.path.total_recvd = self.path.total_recvd.saturating_add(len as u64);
+        } else if let Some((_, prev)) = &mut self.prev_path {
+            if remote == prev.remote {
+                prev.total_recvd = prev.total_recvd.saturating_add(len as u64);
+            }
+        }
+    }
+
     fn handle_coalesced(
         &mut self,
         now: Instant,
@@ -2299,7 +2314,7 @@ impl Connection {
         ecn: Option<EcnCodepoint>,
         data: BytesMut,
     ) {
-        self.path.total_recvd = self.path.total_recvd.saturating_add(data.len() as u64);
+        self.credit_received(remote, data.len());
         let mut remaining = Some(data);
         while let Some(data) = remaining {
             match PartialDecode::new(
